@@ -8,7 +8,7 @@ from ..absint import rat_compare
 from ..harness import Recorder, callee_name, open_obj, stub_ext, stub_repo_calls
 from ..index import AnalysisError
 from ..poly import Rat
-from ..values import Obj, Partial, Raised, SymBool, sb_eval, sb_leaves
+from ..values import Obj, Partial, Raised, SymBool, sb_eval, sb_leaves, to_rat
 
 LEVEL = "other"
 EXPLANATION = (
@@ -137,9 +137,86 @@ def run(ctx):
                 # polarity: the data leaf is 'converged' (detector) or 'energy < thr' (energy): continue iff leaf False
                 dep = all(v == (not a[d]) for a, v in sel)
             ctx.ob("R7.4", f"{ci.qualname}.__call__:converged", dep, "past min_steps and within bounds: continue <=> not converged", f"data leaves={data!r}"[:300], "continue == not converged")
+    _measured_quantities(ctx)
     # ------------------------------------------------------------- loop rules
     _loop_rules(ctx)
     ctx.require_count("C07", len(ctx.obligations), 9)
+
+
+def _measured_quantities(ctx):
+    """what the two conditions measure: (a) the energy threshold sums compute_energy(E, H, inverse permittivity, inverse
+    permeability) — in that order; (b) the convergence test compares the spectrum of the mean over the prev_periods
+    periods [t - (k+1) spp, t - spp) with that of the last period [t - spp, t)."""
+    from ..ndarr import NdArr
+
+    ix = ctx.index
+    # (a)
+    ci = ix.cls("fdtdx.fdtd.stop_conditions.EnergyThresholdCondition")
+    it = ctx.fresh_interp()
+    seen = {}
+
+    def energy(it_, a, k):
+        names = ("E", "H", "inv_permittivity", "inv_permeability")
+        got = dict(zip(names, a))
+        got.update(k)
+        seen.update(got)
+        return Rat.atom("energy")
+
+    stub_repo_calls(it, {"compute_energy": energy})
+    stub_ext(it, {"np.sum": lambda it_, a, k: a[0]})
+    fields = open_obj(None, "fields", E=Rat.atom("E"), H=Rat.atom("H"))
+    arrays = open_obj(None, "arrays", fields=fields, inv_permittivities=Rat.atom("inv_eps"), inv_permeabilities=Rat.atom("inv_mu"))
+    cond = Obj(ci, dict(threshold=Rat.atom("thr"), min_steps=MIN, max_steps=MAX), ci.name)
+    try:
+        it.call_method(cond, "__call__", (T, arrays), open_obj(None, "config", time_steps_total=TOTAL), open_obj(None, "objects"))
+    except Raised as r:
+        raise AnalysisError(f"EnergyThresholdCondition.__call__ raises: {r}")
+    want = {"E": "E", "H": "H", "inv_permittivity": "inv_eps", "inv_permeability": "inv_mu"}
+    got = {k: (to_rat(v).fmt() if v is not None else None) for k, v in seen.items() if k in want}
+    ctx.ob("R7.6", f"{ci.qualname}.__call__:energy-arguments", got == want, "the thresholded quantity is compute_energy(E, H, arrays.inv_permittivities, arrays.inv_permeabilities): the electric part weighted by the permittivity, the magnetic part by the permeability", got, want)
+    # (b)
+    ci = ix.cls("fdtdx.fdtd.stop_conditions.DetectorConvergenceCondition")
+    bad, n = [], 0
+    for spp, k_, total, t in ((2, 2, 12, 8), (2, 2, 12, 6), (3, 1, 12, 9), (2, 3, 14, 14), (3, 2, 15, 10)):
+        it = ctx.fresh_interp()
+        ffts = []
+        readings = NdArr((total, 1), [Rat.atom(("r", i)) for i in range(total)])
+
+        def dyn_slice(it_, a, k):
+            arr, starts, sizes = a[0], a[1], a[2]
+            s0, n0 = int(to_rat(starts[0]).const_value()), int(to_rat(sizes[0]).const_value())
+            if s0 < 0 or s0 + n0 > arr.shape[0]:
+                s0 = max(0, min(s0, arr.shape[0] - n0))  # dynamic_slice clamps
+            return NdArr((n0, 1), list(arr.data[s0 : s0 + n0]))
+
+        stub_ext(
+            it,
+            {
+                "jax.lax.dynamic_slice": dyn_slice,
+                "lax.dynamic_slice": dyn_slice,
+                "np.fft.rfft": lambda it_, a, k, _f=ffts: (_f.append(a[0]), a[0])[1],
+                "np.linalg.norm": lambda it_, a, k: Rat.atom("distance"),
+                "np.array": lambda it_, a, k: a[0],
+            },
+        )
+        cond = Obj(ci, dict(threshold=Rat.atom("thr"), min_steps=(k_ + 1) * spp, max_steps=total + 5, _spp=spp, prev_periods=k_, detector_name="det"), ci.name)
+        arrays = open_obj(None, "arrays", detector_states={"det": {"energy": readings}})
+        try:
+            it.call_method(cond, "__call__", (t, arrays), open_obj(None, "config", time_steps_total=total + 5), open_obj(None, "objects"))
+        except Raised as r:
+            raise AnalysisError(f"DetectorConvergenceCondition.__call__ raises on concrete windows: {r}")
+        n += 1
+        if len(ffts) != 2 or not all(isinstance(x, NdArr) and x.shape == (spp,) for x in ffts):
+            bad.append(((spp, k_, t), "spectra", [getattr(x, "shape", x) for x in ffts]))
+            continue
+        ref = [sum((Rat.atom(("r", t - (k_ + 1) * spp + p * spp + j)) for p in range(k_)), Rat.const(0)) / k_ for j in range(spp)]
+        last = [Rat.atom(("r", t - spp + j)) for j in range(spp)]
+        pairs = [(ffts[0], ref), (ffts[1], last)]
+        if not all(to_rat(x).equals(y) for arr_, w in pairs for x, y in zip(arr_.data, w)):
+            alt = [(ffts[1], ref), (ffts[0], last)]
+            if not all(to_rat(x).equals(y) for arr_, w in alt for x, y in zip(arr_.data, w)):
+                bad.append(((spp, k_, t), [to_rat(x).fmt() for x in ffts[0].data], [y.fmt() for y in ref]))
+    ctx.ob("R7.6", f"{ci.qualname}.__call__:windows", not bad and n == 5, "the two transformed signals are the sample-wise mean of the prev_periods periods [t - (k+1) spp, t - spp) and the last period [t - spp, t) of the detector trace (five (spp, k, t) settings with every reading a free symbol)", bad[:2], "documented windows")
 
 
 def _show(asgs, time_keys):
